@@ -19,10 +19,13 @@
    C04_push_string_verbatim (stream), C04_children_after_text (formatter).
    Attribute positions (proofs/AttrText*.v): C04_attr_value_literal (front end on name[n...] for every
    value form), C04_quoted_value_verbatim, C04_group_bracket_attr (`(` `)` in attribute values end to end).
-   _partial: C04_wrap_implicit_partial is parametric in how X converts and assumes X leaves the converter
-   state alone (no nested repeater inside X); C04_quoted_scanner_partial is the scanner lemma that
-   C04_attr_value_literal builds on (kept).  C04_text_with_attributes / C04_expand_text_element: text on
-   an element that also carries `#id`, `.class`, `[...]` (`a.c[b=1]{t}`), front end and whole pipeline.
+   The wrap clause with an implicit repeater is proved in full in props/C04Wrap.v (C04_wrap_implicit: every
+   token tree -- nested explicit and implicit repeaters, `$#` at any depth --, every line list, every budget,
+   against the pure spec [unroll_w]); C04_wrap_implicit_parametric below (formerly C04_wrap_implicit_partial)
+   is the earlier form of it, parametric in how X converts, kept as a theorem.
+   C04_quoted_scanner_partial is the scanner lemma that C04_attr_value_literal builds on (kept).
+   C04_text_with_attributes / C04_expand_text_element: text on an element that also carries `#id`, `.class`,
+   `[...]` (`a.c[b=1]{t}`), front end and whole pipeline.
    Not covered by a theorem: `$` numbering / fields inside text and attribute values, text written
    between the attribute parts (`a{t}.c`), text under the haml / pug / slim formatters -- these are
    covered by the model/implementation correspondence and the oracle. *)
@@ -189,10 +192,10 @@ Print Assumptions C04_placeholder_total.
    yields), otherwise ([ph = false]) the line is appended once to the deepest last element of the copy.
    How X itself converts under counter j is a parameter ([copy j] may be ANY forest, [copy_spec] ties it
    to the converter); the guard hypothesis says maxRepeat does not cut the copies short (that is C02).
-   _partial: [copy_spec] asks that converting X leaves the converter state alone apart from recording a
-   `$#`; this holds for X without nested repeaters (which consume the repeat budget) -- the general
-   case is covered by the correspondence and the oracle only. *)
-Theorem C04_wrap_implicit_partial :
+   [copy_spec] asks that converting X leaves the converter state alone apart from recording a `$#`; this
+   holds for X without nested repeaters (which consume the repeat budget).  The general case -- X any
+   token tree -- is C04_wrap_implicit in props/C04Wrap.v (this one used to carry the suffix _partial). *)
+Theorem C04_wrap_implicit_parametric :
   forall (env : cenv) (mr : option N) (node : tnode) (r0 : rep) (lines : list str) (ph : bool)
          (copy : nat -> list anode),
     ce_text env = WList lines ->
@@ -203,7 +206,7 @@ Theorem C04_wrap_implicit_partial :
     (Z.of_nat (length L) <= match mr with Some m => Z.of_N m | None => 1000000 end)%Z ->
     convert env mr [node] = Ok (concat (map (piece ph L copy) (seq 0 (length L)))).
 Proof. exact wrap_implicit_convert. Qed.
-Print Assumptions C04_wrap_implicit_partial.
+Print Assumptions C04_wrap_implicit_parametric.
 
 (* wrap_plain.  For EVERY abbreviation tree without `$#` and without an implicit repeater ([quiet_all]:
    any nesting, groups, explicit repeaters, numbering, attributes) and EVERY text (one string or a list
